@@ -571,4 +571,161 @@ theorem not_late_spec {s : SState} (h : InvS s) :
       · have := lt_due_le (hs.1 e he'); omega
     · cases hdone
 
+/-! ### what a pass appends to the log; ledgers only grow (generic in the queue implementation) -/
+
+section generic
+variable {Q : Type} (I : QImpl Q)
+
+theorem log_applyAct (re : Bool) (s : MState Q) (a : Act) : (applyAct I re s a).h.log = s.h.log := by
+  cases a <;> simp only [applyAct, Machine.cancelBy]
+  case post l typ d f => split; rfl; split; rfl; split <;> rfl
+  all_goals (split <;> rfl)
+
+theorem log_foldl (re : Bool) : ∀ (acts : List Act) (s : MState Q), (acts.foldl (applyAct I re) s).h.log = s.h.log
+  | [], _ => rfl
+  | a :: acts, s => by simp only [List.foldl_cons]; rw [log_foldl re acts, log_applyAct]
+
+theorem now_applyAct' (re : Bool) (s : MState Q) (a : Act) : s.h.now ≤ (applyAct I re s a).h.now := by
+  cases a <;> simp only [applyAct, Machine.cancelBy]
+  case tick k => exact Nat.le_add_right _ _
+  case post l typ d f => split; exact Nat.le_refl _; split; exact Nat.le_refl _; split <;> exact Nat.le_refl _
+  all_goals (split <;> exact Nat.le_refl _)
+
+/-- every record a pass adds carries the pass time `t` -/
+theorem processLoop_log (t : Int) : ∀ (fuel : Nat) (s : MState Q),
+    ∃ new, (processLoop I fuel t s).h.log = new ++ s.h.log ∧ ∀ d ∈ new, d.passT = t
+  | 0, s => ⟨[], rfl, by simp⟩
+  | fuel + 1, s => by
+    simp only [processLoop]
+    cases hq : I.popDue s.q t with
+    | none => exact ⟨[], rfl, by simp⟩
+    | some x =>
+      obtain ⟨e, q'⟩ := x
+      simp only
+      obtain ⟨new, h1, h2⟩ := processLoop_log t fuel (runHandler I
+        { q := q', h := { s.h with log := ⟨e, t, s.h.now, I.toList q'⟩ :: s.h.log } } e)
+      refine ⟨new ++ [⟨e, t, s.h.now, I.toList q'⟩], ?_, ?_⟩
+      · rw [h1]; unfold runHandler; rw [log_foldl]; simp
+      · intro d hd
+        rcases List.mem_append.1 hd with h3 | h3
+        · exact h2 d h3
+        · simp at h3; subst h3; rfl
+
+theorem cancelled_applyAct (re : Bool) (s : MState Q) (a : Act) :
+    ∀ e ∈ s.h.cancelled, e ∈ (applyAct I re s a).h.cancelled := by
+  intro e he
+  cases a <;> simp only [applyAct, Machine.cancelBy]
+  case tick k => exact he
+  case post l typ d f => split; exact he; split; exact he; split <;> exact he
+  all_goals (split; exact he; exact List.mem_append_right _ he)
+
+theorem cancelled_foldl (re : Bool) : ∀ (acts : List Act) (s : MState Q),
+    ∀ e ∈ s.h.cancelled, e ∈ (acts.foldl (applyAct I re) s).h.cancelled
+  | [], _, e, he => he
+  | a :: acts, s, e, he => cancelled_foldl re acts _ e (cancelled_applyAct I re s a e he)
+
+theorem cancelled_processLoop (t : Int) : ∀ (fuel : Nat) (s : MState Q),
+    ∀ e ∈ s.h.cancelled, e ∈ (processLoop I fuel t s).h.cancelled
+  | 0, _, e, he => he
+  | fuel + 1, s, e, he => by
+    simp only [processLoop]
+    cases hq : I.popDue s.q t with
+    | none => exact he
+    | some x =>
+      obtain ⟨e', q'⟩ := x
+      simp only
+      apply cancelled_processLoop t fuel
+      unfold runHandler
+      exact cancelled_foldl I true _ _ e he
+
+theorem cancelled_step {s s' : MState Q} {op : Op} (hs : Machine.step I s op = some s') :
+    ∀ e ∈ s.h.cancelled, e ∈ s'.h.cancelled := by
+  intro e he
+  cases op with
+  | act a =>
+    simp only [Machine.step] at hs
+    split at hs
+    · cases hs; exact cancelled_applyAct I false s a e he
+    · cases hs
+  | newl l =>
+    simp only [Machine.step] at hs
+    split at hs
+    · cases hs; exact he
+    · cases hs
+  | handler l t acts => simp only [Machine.step] at hs; cases hs; exact he
+  | process => simp only [Machine.step] at hs; cases hs; exact cancelled_processLoop I _ _ s e he
+
+theorem cancelled_run : ∀ (ops : List Op) {s s' : MState Q}, Machine.run I s ops = some s' →
+    ∀ e ∈ s.h.cancelled, e ∈ s'.h.cancelled
+  | [], _, _, hs, e, he => by cases hs; exact he
+  | op :: ops, s, s', hs, e, he => by
+    simp only [Machine.run] at hs
+    cases h1 : Machine.step I s op with
+    | none => rw [h1] at hs; cases hs
+    | some s1 =>
+      rw [h1] at hs
+      exact cancelled_run ops hs e (cancelled_step I h1 e he)
+
+theorem run_append : ∀ (ops1 ops2 : List Op) (s : MState Q),
+    Machine.run I s (ops1 ++ ops2) = (Machine.run I s ops1).bind (Machine.run I · ops2)
+  | [], _, _ => rfl
+  | op :: ops1, ops2, s => by
+    simp only [List.cons_append, Machine.run]
+    cases Machine.step I s op with
+    | none => rfl
+    | some s1 => simp only [Option.bind_some]; exact run_append ops1 ops2 s1
+
+end generic
+
+/-! ## Part 5: transfer along the refinement -/
+
+def SReach (ss : SState) : Prop := ∃ b ops, Machine.run ListQ.impl (Machine.init ListQ.impl b) ops = some ss
+
+theorem sat_true (op : Op) : Op.sat (fun _ => True) op := by
+  cases op <;> simp [Op.sat]
+
+theorem SReach.inv {ss : SState} (h : SReach ss) : InvS ss := by
+  obtain ⟨b, ops, hr⟩ := h
+  exact InvS.preserved.run ops (fun op _ => sat_true op) (InvS.init b) hr
+
+theorem InvS.fresh {ss : SState} (h : InvS ss) : Fresh ss := ⟨h.idpos, h.qid⟩
+
+theorem reachable_spec {s : State} (h : Reachable s) : ∃ ss, SReach ss ∧ RelS s ss := by
+  obtain ⟨b, ops, hr⟩ := h
+  have := rel_run ops (rel_init b).1 (rel_init b).2
+  unfold run at hr
+  rw [hr] at this
+  cases hb : Machine.run ListQ.impl (Machine.init ListQ.impl b) ops with
+  | none => rw [hb] at this; exact this.elim
+  | some ss => rw [hb] at this; exact ⟨ss, ⟨b, ops, hb⟩, this.1⟩
+
+/-- the converse direction: a history accepted by the specification is accepted by the link-level model -/
+theorem reachable_of_spec {b : Nat} {ops : List Op} {ss : SState}
+    (h : Machine.run ListQ.impl (Machine.init ListQ.impl b) ops = some ss) :
+    ∃ s, run (init b) ops = some s ∧ pending s = ss.q ∧ s.h = ss.h := by
+  have := rel_run ops (rel_init b).1 (rel_init b).2
+  rw [h] at this
+  cases ha : Machine.run LQ.impl (init b) ops with
+  | none => rw [ha] at this; exact this.elim
+  | some s => rw [ha] at this; exact ⟨s, ha, this.1.1.toList, this.1.2⟩
+
+theorem step_transfer {s s' : State} {op : Op} (h : Reachable s) (hs : step s op = some s') :
+    ∃ ss ss', InvS ss ∧ RelS s ss ∧ Machine.step ListQ.impl ss op = some ss' ∧ RelS s' ss' ∧ InvS ss' := by
+  obtain ⟨ss, hreach, hrel⟩ := reachable_spec h
+  have hinv := hreach.inv
+  have := rel_step op hrel hinv.fresh
+  unfold step at hs
+  rw [hs] at this
+  cases hb : Machine.step ListQ.impl ss op with
+  | none => rw [hb] at this; exact this.elim
+  | some ss' =>
+    rw [hb] at this
+    exact ⟨ss, ss', hinv, hrel, hb, this.1, InvS.preserved.step (sat_true op) hinv hb⟩
+
+theorem reachable_step {s s' : State} {ops : List Op} (h : Reachable s) (hs : run s ops = some s') : Reachable s' := by
+  obtain ⟨b, ops0, hr⟩ := h
+  refine ⟨b, ops0 ++ ops, ?_⟩
+  unfold run at hr hs ⊢
+  rw [run_append, hr]; exact hs
+
 end Morfuse.EventQueue
